@@ -49,7 +49,18 @@ func exercise(x *h.X, m tink.MAC, want oracle, maxLen int, prefixLen int, otherP
 	if x.Thorough() {
 		npat = 4
 	}
+	lengths := make([]int, 0, maxLen+200)
 	for n := 0; n <= maxLen; n++ {
+		lengths = append(lengths, n)
+	}
+	if maxLen >= 300 { // the long sweep also visits windows around powers of two up to 64 KiB (thorough) / 8 KiB
+		pw := 13
+		if x.Thorough() {
+			pw = 16
+		}
+		lengths = append(lengths, ref.LongLengths(pw, 17)...)
+	}
+	for _, n := range lengths {
 		for p := 0; p < npat; p++ {
 			kind := p + 2 // quick: counter and 0xA5^i patterns
 			if x.Thorough() {
